@@ -572,7 +572,7 @@ func (osObj *VirtualOS) PathSeparator() rune {
 }
 
 func (osObj *VirtualOS) PathListSeparator() rune {
-	return os.PathSeparator
+	return os.PathListSeparator
 }
 
 func (osObj *VirtualOS) CurrentUser() (User, error) {
